@@ -10,7 +10,10 @@ import CBV.Lemmas.C18Model
 import CBV.Lemmas.C18Data
 import CBV.Lemmas.C18Clear
 import CBV.Lemmas.C18Sides
+import CBV.Lemmas.C18Disk
+import CBV.Lemmas.C18Reject
 import CBV.Gen.TC18
+import CBV.Gen.TC19
 
 namespace CBV.C18
 
@@ -780,6 +783,104 @@ example : clearSearch (swapLR cubePts) (cubeHull.reverse.map (fun s => (perm [1,
     perm [1, 0, 3, 2, 5, 4, 7, 6] s.2.1, perm [1, 0, 3, 2, 5, 4, 7, 6] s.2.2))) ⟨1 / 2, -10, 1 / 2⟩ ⟨1 / 2, 1 / 2, 10⟩
     = some cubePts := by decide +kernel
 
+
+/-! ### round 6d: the round-shape finder on the disk classes themselves, in every placement -/
+
+section disk
+open CBV.C19 (lookup sketchFromSource SketchIdx rimStart nPositions)
+open CBV.C11 (DiskCls)
+
+/-- **OneCoreDisk / QuarterDisk / HalfDisk / FourCoreDisk in ANY placement** (centre `c`, radius point `rp ≠ c`, unit normal
+    `u` perpendicular to the radius; any ordered field, `h` with `2h² = 1` — ℝ with h = cos π/4; ratios within `DiskOK`):
+    the positions `find_shell` looks up (points `[1:3]` of the faces in `.shell`, slice and `quad_map`/`grid` regenerated from
+    the source) are exactly the positions of the sketch at the distance of the radius point from the centre, and the
+    positions `find_core` looks up are exactly all the others -/
+theorem T_C18_disk_finder_points {K : Type} [Field K] [LinearOrder K] [IsStrictOrderedRing K]
+    (cl : DiskCls) (c rp u : CBV.C11.P3 K) (h k dg : K) (hok : CBV.C11.DiskOK cl h k dg) (hh : h * h + h * h = 1)
+    (hu : CBV.C11.P3.nsq u = 1) (hp : CBV.C11.P3.dot u (CBV.C11.P3.sub rp c) = 0)
+    (hr : 0 < CBV.C11.P3.nsq (CBV.C11.P3.sub rp c))
+    (quads : List (List Nat)) (s : SketchIdx)
+    (hq : lookup cl.name CBV.Gen.c19QuadMaps = some quads) (hs : sketchFromSource cl.name = some s) (i : Nat) :
+    (i ∈ shellIds quads s ↔ i < nPositions cl ∧
+      CBV.C11.P3.nsq (CBV.C11.P3.sub ((CBV.C11.diskPts cl c rp u h k dg).getD i c) c) =
+        CBV.C11.P3.nsq (CBV.C11.P3.sub rp c)) ∧
+    (i ∈ coreIds quads s ↔ i < nPositions cl ∧
+      CBV.C11.P3.nsq (CBV.C11.P3.sub ((CBV.C11.diskPts cl c rp u h k dg).getD i c) c) ≠
+        CBV.C11.P3.nsq (CBV.C11.P3.sub rp c)) := by
+  obtain ⟨h1, h2⟩ := diskIds_spec cl quads s hq hs i
+  constructor
+  · rw [h1]
+    constructor
+    · rintro ⟨a, b⟩
+      exact ⟨b, (CBV.C19.onCircle_iff cl c rp u h k dg hok hh hu hp hr i b).mpr a⟩
+    · rintro ⟨b, a⟩
+      exact ⟨(CBV.C19.onCircle_iff cl c rp u h k dg hok hh hu hp hr i b).mp a, b⟩
+  · rw [h2]
+    constructor
+    · rintro ⟨a, b⟩
+      exact ⟨b, fun e => absurd ((CBV.C19.onCircle_iff cl c rp u h k dg hok hh hu hp hr i b).mp e) (by omega)⟩
+    · rintro ⟨b, a⟩
+      refine ⟨?_, b⟩
+      by_contra hge
+      exact a ((CBV.C19.onCircle_iff cl c rp u h k dg hok hh hu hp hr i b).mpr (by omega))
+
+/-- … hence, for every vertex list and every (rounded) position list of the end face: `find_shell` returns exactly the
+    vertices within TOL of a position that comes from `get_outer_points`, `find_core` exactly those within TOL of one of
+    the other positions — no probe instance, no rounded distance table involved -/
+theorem T_C18_disk_find (cl : DiskCls) (quads : List (List Nat)) (s : SketchIdx)
+    (hq : lookup cl.name CBV.Gen.c19QuadMaps = some quads) (hs : sketchFromSource cl.name = some s)
+    (vs pts : List V3) (i : Nat) :
+    (i ∈ findFromPoints vs (pickPts pts (shellIds quads s)) ↔
+      i < vs.length ∧ ∃ k, rimStart cl ≤ k ∧ k < nPositions cl ∧ near (vs.getD i V3.zero) (pts.getD k V3.zero)) ∧
+    (i ∈ findFromPoints vs (pickPts pts (coreIds quads s)) ↔
+      i < vs.length ∧ ∃ k, k < rimStart cl ∧ near (vs.getD i V3.zero) (pts.getD k V3.zero)) := by
+  have hsp := diskIds_spec cl quads s hq hs
+  have hle : rimStart cl ≤ nPositions cl := Nat.le_add_right _ _
+  constructor
+  · simp only [findFromPoints, mem_findIdx, pickPts, List.any_map, List.any_eq_true, Function.comp, decide_eq_true_eq]
+    constructor
+    · rintro ⟨hi, k, hk, hn⟩
+      exact ⟨hi, k, ((hsp k).1.mp hk).1, ((hsp k).1.mp hk).2, hn⟩
+    · rintro ⟨hi, k, h1, h2, hn⟩
+      exact ⟨hi, k, (hsp k).1.mpr ⟨h1, h2⟩, hn⟩
+  · simp only [findFromPoints, mem_findIdx, pickPts, List.any_map, List.any_eq_true, Function.comp, decide_eq_true_eq]
+    constructor
+    · rintro ⟨hi, k, hk, hn⟩
+      exact ⟨hi, k, ((hsp k).2.mp hk).1, hn⟩
+    · rintro ⟨hi, k, h1, hn⟩
+      exact ⟨hi, k, (hsp k).2.mpr ⟨h1, by omega⟩, hn⟩
+
+/-- the sketch tables of the executable model (probe instances, points numbered by first appearance — what the
+    correspondence runs on) are the canonical renumbering of this class-level structure: same quads, same core / shell
+    faces, same shell-finder and core-finder points -/
+theorem T_C18_disk_probe_tables : [DiskCls.oneCore, .quarter, .half, .fourCore].all probeAgrees = true := probe_table
+
+/-- non-vacuity: the tables of the current source exist for all four classes -/
+example : [DiskCls.oneCore, .quarter, .half, .fourCore].all (fun cl =>
+    (lookup cl.name CBV.Gen.c19QuadMaps).isSome && (sketchFromSource cl.name).isSome) = true := by decide +kernel
+
+end disk
+
+/-! ### round 6d: what holds for EVERY block and view (adjacent sides less than 60° apart included) -/
+
+/-- **Returns or raises `DegenerateGeometryError`, nothing else.**  For every point list, every list of simplices, every
+    observer and ceiling for which the view directions are defined: a run of `reorient` that does not return ends in
+    `notConvex` or `degenerate` — the two messages of `DegenerateGeometryError`; the `IndexError` of `common_2[0]`
+    (repair 70219c0) and of an empty `sorted(...)[-2:]` cannot occur (twelve triangles last exactly six passes).
+    Together with `T_C18_same_points` (a returned result is a permutation of the eight input points) this is what is
+    guaranteed without the hull contract's `across` clause, i.e. also for blocks whose adjacent sides are less than 60°
+    apart; that a returned result is then one of the 48 relabellings is NOT proved (there `Quadrangle` may accept a pair of
+    triangles from two sides) and stays with the oracle clause `block-restructured`. -/
+theorem T_C18_rejects_documented (pts : List V3) (sim : List (Nat × Nat × Nat)) (obs ceil : V3) (e : Err)
+    (hview : ¬ ((dirsOf (average pts) obs ceil).o = V3.zero ∨ (dirsOf (average pts) obs ceil).t = V3.zero))
+    (h : reorient pts sim obs ceil = .error e) : e = .notConvex ∨ e = .degenerate := by
+  rcases reorient_error h with h1 | h1 | ⟨_, h1⟩
+  · exact Or.inl h1
+  · exact Or.inr h1
+  · exact absurd h1 hview
+
+/-- non-vacuity: a hull with ten triangles is rejected with `notConvex`, the exact tie of round 6c with `degenerate` -/
+example : reorient cubePts (cubeHull.take 10) ⟨10, 1 / 2, 1 / 2⟩ ⟨1 / 2, 1 / 2, 10⟩ = .error .notConvex := by decide +kernel
 
 /-! ### round 6c: every returning run, without any assumption on the view -/
 
